@@ -347,6 +347,7 @@ LibPureOK(name, a, heap, off) ==     \* a = validated arguments
             IF Concrete(a[1]) /\ Concrete(a[2]) THEN R(IntV(Compare(a[1], a[2], heap)), heap) ELSE SkipR(heap)
       [] name = "systemIs" ->
             R(Bool(IF a[1].t = "num" /\ a[2].t = "num" THEN CmpNum(a[1], a[2]) = 0
+                   ELSE IF a[1].t # a[2].t THEN FALSE
                    ELSE IF a[1].t \in {"array", "object"} THEN a[1] = a[2]
                    ELSE IF a[1].t \in {"null", "bool"} THEN a[1] = a[2]
                    ELSE FALSE), heap)          \* strings / datetimes / functions: identity is unspecified -> see SystemIsOpen
